@@ -194,9 +194,17 @@ func s2sVal(v int) string {
 		return string(PatBytes(v%250, 0, 300+v%5000))
 	case 3:
 		return "\x00" + fmt.Sprint(v) + "\xff"
+	case 5, 6:
+		// prefixes of ONE buffer (values cut from a shared configuration blob): neighbours in the value slice start at the
+		// same address and differ only in length
+		if v < 400 { // (values travel hex-encoded in the events: keep them short)
+			return s2sMaster[:5+v]
+		}
 	}
 	return fmt.Sprintf("v%d-%s", v, strings.Repeat("x", v%7))
 }
+
+var s2sMaster = string(PatBytes(201, 0, 512))
 func (d *smS2S) load(via string, keys []string, vals []int) (err error) {
 	vv := make([]string, len(vals))
 	for i, v := range vals {
